@@ -200,3 +200,9 @@ PROPS['C11']['eb'].append(EB_REFENC)
 
 EB_GRAMMAR = {'name': 'grammar', 'crate': 'gneiss-mqtt', 'module_dir': 'gneiss_mqtt', 'filters': ['grammar::'], 'tests': ['topic_grammar_functions_agree_with_reference'], 'timeout': 3000}
 PROPS['C16']['eb'].append(EB_GRAMMAR)
+
+# C11 "no configuration value the builders accept can make the client panic": extreme durations (finding F-DURATION-OVERFLOW, fixed)
+EB_EXTREME = {'name': 'extreme-durations', 'crate': 'gneiss-mqtt', 'module_dir': 'gneiss_mqtt', 'features': ['threaded'],
+              'raw_filters': ['verif_bounded::extremes', 'verif_bounded::client::client_extreme', 'verif_bounded::driver_threaded::threaded_driver_survives'],
+              'tests': ['extreme_ack_timeouts_never_panic', 'client_extreme_connect_timeout_never_panics', 'threaded_driver_survives_extreme_durations'], 'timeout': 3000}
+PROPS['C11']['eb'].append(EB_EXTREME)
